@@ -215,3 +215,66 @@ Proof.
     pose proof (merge_targets_char (group (ipath i) doc)) as Hch. rewrite Hm in Hch.
     destruct (itargets i); [congruence | destruct Hch; congruence].
 Qed.
+
+(** * Reordering the raw [#import] lines of a document *)
+
+Lemma forallb_perm {A} (p : A -> bool) l l' : Permutation l l' -> forallb p l = forallb p l'.
+Proof.
+  induction 1 as [|x l l' _ IH|x y l|l l' l'' _ IH1 _ IH2]; cbn.
+  - reflexivity.
+  - rewrite IH; reflexivity.
+  - destruct (p x), (p y); reflexivity.
+  - congruence.
+Qed.
+
+Lemma group_perm p doc doc' : Permutation doc doc' -> Permutation (group p doc) (group p doc').
+Proof. intros H. unfold group. apply Permutation_flat_map; exact H. Qed.
+
+Lemma has_line_perm p doc doc' : Permutation doc doc' -> has_line p doc = has_line p doc'.
+Proof. intros H. unfold has_line. apply existsb_perm; exact H. Qed.
+
+Lemma group_wild_perm g g' : Permutation g g' -> g = [TWild] -> g' = [TWild].
+Proof. intros H ->. apply Permutation_length_1_inv in H. exact H. Qed.
+
+Theorem ext_perm doc doc' f :
+  Permutation doc doc' -> item_defs doc = item_defs doc' ->
+  resolve_extensions doc = inr f ->
+  exists f', resolve_extensions doc' = inr f' /\ file_equiv f f'.
+Proof.
+  intros Hp Hdefs H.
+  destruct (resolve_extensions doc') as [e|f'] eqn:H'.
+  - exfalso.
+    assert (Herr : exists e, resolve_extensions doc' = inl e) by eauto.
+    apply ext_error_iff in Herr. destruct Herr as (p & Hl & Hw & Hne).
+    assert (Herr0 : exists e, resolve_extensions doc = inl e).
+    { apply ext_error_iff. exists p.
+      pose proof (group_perm p doc doc' Hp) as Hg.
+      split; [rewrite (has_line_perm p doc doc' Hp); exact Hl|]. split.
+      - unfold no_wild in *. rewrite (forallb_perm _ _ _ Hg). exact Hw.
+      - intros E. apply Hne. eapply group_wild_perm; eauto. }
+    destruct Herr0 as (e0 & He0). congruence.
+  - exists f'. split; [reflexivity|].
+    pose proof (ext_char doc) as Hc. rewrite H in Hc. destruct Hc as (Hd & _ & Hin & Hall).
+    pose proof (ext_char doc') as Hc'. rewrite H' in Hc'. destruct Hc' as (Hd' & _ & Hin' & Hall').
+    assert (Hequiv : forall d1 d2 f1 f2 i1 i2,
+               Permutation d1 d2 -> resolve_extensions d1 = inr f1 -> resolve_extensions d2 = inr f2 ->
+               In i1 (fimports f1) -> In i2 (fimports f2) -> ipath i2 = ipath i1 -> imp_equiv i1 i2).
+    { intros d1 d2 f1 f2 i1 i2 Hp12 H1 H2 Hi1 Hi2 Hpath.
+      split; [symmetry; exact Hpath|].
+      pose proof (ext_requests d1 f1 i1 H1 Hi1) as R1. pose proof (ext_requests d2 f2 i2 H2 Hi2) as R2.
+      rewrite Hpath in R2.
+      pose proof (group_perm (ipath i1) d1 d2 Hp12) as Hg.
+      destruct (itargets i1) as [|a], (itargets i2) as [|b].
+      - exact I.
+      - destruct R2 as [Hnw _]. rewrite (group_wild_perm _ _ Hg R1) in Hnw. discriminate.
+      - destruct R1 as [Hnw _]. apply Permutation_sym in Hg. rewrite (group_wild_perm _ _ Hg R2) in Hnw. discriminate.
+      - destruct R1 as [_ ->], R2 as [_ ->]. apply Permutation_map. unfold target_ids.
+        apply Permutation_flat_map. exact Hg. }
+    split; [rewrite Hd, Hd'; exact Hdefs|]. split.
+    + intros i Hi. destruct (Hin i Hi) as [Hl _]. rewrite (has_line_perm _ doc doc' Hp) in Hl.
+      destruct (Hall' _ Hl) as (i' & Hi' & Hpath). exists i'. split; [exact Hi'|].
+      exact (Hequiv doc doc' f f' i i' Hp H H' Hi Hi' Hpath).
+    + intros i' Hi'. destruct (Hin' i' Hi') as [Hl _]. rewrite <- (has_line_perm _ doc doc' Hp) in Hl.
+      destruct (Hall _ Hl) as (i & Hi & Hpath). exists i. split; [exact Hi|].
+      exact (Hequiv doc doc' f f' i i' Hp H H' Hi Hi' (eq_sym Hpath)).
+Qed.
